@@ -120,6 +120,19 @@ pub fn iter_adaptors(_args: &[String]) -> String {
             return fail("C17 read_to_string counts the bytes read (the destination may already hold text)", format!("position {} expected 5", pb.position()));
         }
     }
+    {
+        // read_to_end appends too: a destination that already holds bytes does not count
+        for pre in [0usize, 7, 100] {
+            let pb = ProgressBar::hidden();
+            let mut w = pb.wrap_read(Cursor::new(vec![1u8; 30]));
+            let mut v = vec![0u8; pre];
+            let r = w.read_to_end(&mut v);
+            tried += 1;
+            if r.ok() != Some(30) || v.len() != pre + 30 || pb.position() != 30 {
+                return fail("C17 read_to_end counts the bytes read (the destination may already hold bytes)", format!("destination pre-filled with {} bytes, 30 bytes read: position {} expected 30", pre, pb.position()));
+            }
+        }
+    }
     // ---- Read: short reads, errors, read_exact, read_to_string
     let data: Vec<u8> = (0..97u8).collect();
     for chunks in [vec![1usize], vec![5, 0, 3], vec![64], vec![2, usize::MAX, 4], vec![usize::MAX]] {
